@@ -22,7 +22,7 @@ import re
 ID = "C30"
 LEVEL = "exploration"
 IN_PROCESS = False
-CHUNK_TIMEOUT = 900
+CHUNK_TIMEOUT = 1800
 RULE = (
     "test cases = one directed call per hostile effect (print, raise, SystemExit, close fd 0/1/2, open(1), dup2, "
     "sys.stdout/stderr/stdin replaced or closed, logging.disable/basicConfig/setLevel/addHandler/shutdown, random.seed, "
@@ -39,12 +39,16 @@ ASSUMPTIONS = [
     "a test whose stand-alone executions (first position of several histories) differ is not deterministic and is excluded (anomaly)",
     "no function of the stateless module loops, so a timeout there is a starved thread on a loaded machine (anomaly, dropped)",
     "a mismatch that cannot be reproduced in a fresh process is load noise (anomaly), not a violation",
-    "modules that mutate their own globals / hold a module-level Random instance are exempt from order independence",
+    "modules that mutate their own globals are exempt from order independence; long-lived random.Random instances are NOT "
+    "exempt: generator._patch_random (installed before the SUT import, as _setup_and_check does) tracks them and "
+    "_make_deterministic reseeds them before every execution; random.SystemRandom is excluded (not deterministic)",
     "random.getstate() of the global `random` module is not Pynguin's own stream and is not part of the snapshot",
 ]
 
 # ------------------------------------------------------------------------------- SUT modules
 SUT_FX = '''
+import collections
+import functools
 import io
 import logging
 import os
@@ -226,6 +230,70 @@ def own_random(x: int) -> float:
     return r.random()
 
 
+# --- long-lived random.Random instances: tracked by generator._patch_random, reseeded by _make_deterministic ---
+_rng_seeded = random.Random(2024)
+_rng_unseeded = random.Random()
+# created lazily (first use inside a test) by C code, so that the creation itself is not visible in the coverage
+_lazy = collections.defaultdict(random.Random)
+_lazy_seeded = collections.defaultdict(functools.partial(random.Random, 2024))
+_rng_reseeded = random.Random()
+
+
+class Holder:
+    _RNG = random.Random(11)
+
+
+def _bucket(r: float) -> int:
+    if r < 0.25:
+        return 0
+    if r < 0.5:
+        return 1
+    if r < 0.75:
+        return 2
+    return 3
+
+
+def inst_seeded(x: int) -> int:
+    return _bucket(_rng_seeded.random())
+
+
+def inst_unseeded(x: int) -> int:
+    return _bucket(_rng_unseeded.random()) + _rng_unseeded.randint(0, 99)
+
+
+def inst_lazy(x: int) -> int:
+    r = _lazy["r"]
+    return _bucket(r.random()) + r.randint(0, 999)
+
+
+def inst_lazy_seeded(x: int) -> int:
+    r = _lazy_seeded["r"]
+    return _bucket(r.random()) + r.randint(0, 999)
+
+
+def inst_class_attr(x: int) -> int:
+    return _bucket(Holder._RNG.random()) + Holder._RNG.randrange(50)
+
+
+def inst_seed_later(x: int) -> int:
+    _rng_reseeded.seed(7)
+    return _bucket(_rng_reseeded.random())
+
+
+def inst_draw_after_seed_later(x: int) -> int:
+    return _bucket(_rng_reseeded.random())
+
+
+def inst_per_call(x: int) -> int:
+    return _bucket(random.Random(2024).random())
+
+
+def inst_shuffle(x: int) -> list:
+    data = list(range(6))
+    _rng_seeded.shuffle(data)
+    return data
+
+
 def _spin(x: int) -> int:
     n = 0
     while True:
@@ -252,8 +320,15 @@ TAGS = {
     "log_basic": "logging.basicConfig", "log_level": "logging.root.setLevel", "log_handler": "logging.root.addHandler",
     "log_shutdown": "logging.shutdown", "log_emit": "logging.error", "log_query": "logging.isEnabledFor",
     "seed1": "random.seed", "draw": "random.random", "draw_many": "random.randint", "own_random": "random.Random()",
+    "inst_seeded": "Random(seed).module-level", "inst_unseeded": "Random().module-level", "inst_lazy": "Random().lazy-global",
+    "inst_lazy_seeded": "Random(seed).lazy-global", "inst_class_attr": "Random(seed).class-attribute",
+    "inst_seed_later": "Random.seed(7)", "inst_draw_after_seed_later": "Random().after-seed(7)",
+    "inst_per_call": "Random(seed).per-call", "inst_shuffle": "Random(seed).shuffle",
     "_spin": "timeout", "_spin_print": "timeout",
 }
+INSTANCE_TAGS = {"Random(seed).module-level", "Random().module-level", "Random().lazy-global", "Random(seed).lazy-global",
+                 "Random(seed).class-attribute", "Random.seed(7)", "Random().after-seed(7)", "Random(seed).per-call",
+                 "Random(seed).shuffle"}
 # effect classes named in the floors (property statement: raise, print, close streams, disable logging, reseed, consume)
 EFFECT_CLASS = {
     "print": "effect:print", "sys.stderr.write": "effect:print", "raise": "effect:raise", "sys.exit": "effect:raise",
@@ -267,7 +342,7 @@ EFFECT_CLASS = {
     "logging.error": "effect:logging.use", "logging.isEnabledFor": "effect:logging.use", "random.seed": "effect:random.seed",
     "random.random": "effect:random.draw", "random.randint": "effect:random.draw", "random.Random()": "effect:random.draw",
     "timeout": "effect:timeout", "pure": "effect:none",
-}
+} | {t: "sut:random.Random-instance" for t in INSTANCE_TAGS}
 
 SUT_HIDDEN = '''
 import random
@@ -323,7 +398,7 @@ def floors(tier):
             "effect:print": 20, "effect:raise": 20, "effect:close-fd": 20, "effect:replace-stream": 10,
             "effect:close-stream": 10, "effect:logging.disable": 10, "effect:logging.config": 10,
             "effect:random.seed": 10, "effect:random.draw": 20, "effect:timeout": 3,
-            "hidden-state-exempt": 40, "factory-test": 100,
+            "hidden-state-exempt": 40, "factory-test": 100, "sut:random.Random-instance": 150 * k,
         },
     }
 
@@ -331,7 +406,7 @@ def floors(tier):
 def plan(tier, seed):
     # fork() costs 0.1-0.8 s in this sandbox: one fork per history is the budget, reductions only on a mismatch
     if tier == "quick":
-        nhist, parts, nfac = 18, 5, 10
+        nhist, parts, nfac = 14, 5, 10
     else:
         nhist, parts, nfac = 120, 15, 25
     out = [{"name": "directed"}, {"name": "timeouts"}, {"name": "hidden", "seed": seed, "n": 4 if tier == "quick" else 40}]
@@ -433,8 +508,11 @@ class Runner:
         return self.seq([test])[0]
 
     # -- oracle 1 -------------------------------------------------------------
-    def judge_leak(self, entry, lines, exempt=False):
-        """One snapshot evaluation for one execute()."""
+    def judge_leak(self, entry, lines, exempt=False, tainted=False):
+        """One snapshot evaluation for one execute().
+
+        tainted: an earlier execution of this process timed out although nothing in the module loops (starved thread on an
+        overloaded machine); its abandoned thread may still run SUT code, so a state change is not attributable."""
         ctx = self.ctx
         tags = _tags_of(lines)
         classes = {"snapshot"} | {EFFECT_CLASS.get(t, "effect:other") for t in tags}
@@ -449,6 +527,9 @@ class Runner:
             return
         ctx.ok(cls=classes)
         for comp in entry["leak"]["components"]:
+            if tainted and comp not in ("sys.stdin.closed", "sys.stdout.closed"):
+                ctx.anomaly("state-change-after-starved-timeout")
+                continue
             ctx.witness(
                 f"state-leak:{comp}",
                 f"{comp} changed across TestCaseExecutor.execute: {entry['leak']['before'][comp]} -> {entry['leak']['after'][comp]}; "
@@ -595,8 +676,10 @@ class HistorySet:
 
         res = self.runner.seq(seq, timeout)
         lines_of = [H.test_lines(t) for t in seq]
+        tainted = False
         for r, lines in zip(res, lines_of):
-            self.runner.judge_leak(r, lines)
+            tainted = tainted or bool(r["summary"].get("timeout"))
+            self.runner.judge_leak(r, lines, tainted=tainted)
         self.hist.append(list(seq))
         self.res.append([None if "execute-raised" in r["summary"] else _trim(r["summary"]) for r in res])
         self.ctx.ok(0, distinct=[self.label, lines_of])
@@ -818,7 +901,9 @@ def _directed_tests(alias, args=(1, 5)):
 
 
 # benign functions whose result reveals a disturbed stream / logging / random state
-OBSERVERS = ["plain", "pr", "perr", "log_emit", "log_query", "draw", "draw_many", "own_random", "boom"]
+OBSERVERS = ["plain", "pr", "perr", "log_emit", "log_query", "draw", "draw_many", "own_random", "boom",
+             "inst_seeded", "inst_unseeded", "inst_lazy", "inst_lazy_seeded", "inst_class_attr", "inst_draw_after_seed_later",
+             "inst_per_call", "inst_shuffle"]
 
 
 def _single_call_fn(test):
@@ -849,8 +934,10 @@ def run_chunk(spec, ctx):
         for _ in range(spec["n"]):
             seq = [rng.choice(pool) for _ in range(rng.randint(10, 24))]
             res = runner.seq(seq)
+            tainted = False
             for t, r in zip(seq, res):
-                runner.judge_leak(r, H.test_lines(t), exempt=True)
+                tainted = tainted or bool(r["summary"].get("timeout"))
+                runner.judge_leak(r, H.test_lines(t), exempt=True, tainted=tainted)
             ctx.ok(0, distinct=["hidden", [H.test_lines(t) for t in seq]])
         ctx.sample({"module": HID, "sequence": [H.test_lines(t) for t in seq][:6], "note": "snapshot oracle only (hidden state)"})
         return
@@ -914,11 +1001,15 @@ def run_chunk(spec, ctx):
             fn = _single_call_fn(t)
             if fn and H.test_lines(t)[0] != "var_0 = 5":
                 other[fn] = t
+        obs_ids = {id(o) for o in observers}
         for t in tests:
             fn = _single_call_fn(t)
-            if fn and fn in other and other[fn] is t:
+            if (fn and fn in other and other[fn] is t) or id(t) in obs_ids:
                 continue
             hs.run([t, t] + ([other[fn]] if fn in other else []) + observers)
+        # the observers themselves: each twice in a row, and once more in reverse order
+        hs.run([o for o in observers for _ in (0, 1)] + [other[f] for f in OBSERVERS if f in other])
+        hs.run(list(reversed(observers)) + observers)
         hs.judge()
         ctx.sample({"module": FX, "history": [H.test_lines(single["log_disable"]), H.test_lines(single["log_query"])]})
         ctx.note("forks_directed", runner.forks)
